@@ -769,6 +769,9 @@ def run(prog, rep, tier, snap):
     rep.call(r13_9, prog, rep)
     rep.rule("R13.10", "the executor's own standard descriptors are left alone", 1)
     rep.call(r13_10, prog, rep)
+    from ..rules import valist
+    rep.rule("R13.11", "the buffered writer of the mail headers reports success only when the text fitted the room it was formatted into (value-fixed walk around the buffer's end; shared with C05/C06)", 1)
+    rep.call(valist.r_fits, prog, rep, "R13.11")
 READY = True
 
 # texts brought up to date with the rules above (they supersede the first versions at the top of the module)
